@@ -34,6 +34,15 @@ def run(ctx):
             dis_all += [{"cache": cap, "group_max": group_max, **x} for x in dis]
             if not samples:
                 samples = [l[:1200] for l in ec.sample_lines(d, 40) if "ORestart" in l][:2]
+    # F9 scenario: a session requested while a re-computation is in flight; clean shutdown; reopen
+    import subprocess, json as _json
+    try:
+        pf = subprocess.run([vlib.bin_path("engine"), "f9", "6" if quick else "30"], capture_output=True, text=True, timeout=600)
+        f9 = _json.loads(pf.stdout.strip().splitlines()[-1]) if pf.stdout.strip() else {"stale": -1, "first": "no output: " + pf.stderr[-300:]}
+    except subprocess.TimeoutExpired:
+        f9 = {"stale": -1, "first": "process hung"}
+    if f9.get("stale") != 0:
+        real_fail.append({"mode": "engine f9", "violation": "after a clean restart the engine serves the value computed before the last committed session (the session was requested while that computation was in flight)", "scenario": f9})
     if real_fail:
         ctx.violation("restart_failure.json", {"what": "after a clean restart the real engine gave a wrong answer, re-executed a query that was up to date, or hung", "first": real_fail[0], "count": len(real_fail)})
     elif dis_all or not ok:
